@@ -198,14 +198,25 @@ func HBurst(n int) func(*Rec, grpc.ServerStream) error {
 func HConcurrent(n int, wait bool) func(*Rec, grpc.ServerStream) error {
 	return func(r *Rec, ss grpc.ServerStream) error {
 		done := make(chan struct{})
+		returned := false
 		vsched.GoNamed("hrecv-"+r.Tag, func() {
 			defer close(done)
 			for {
-				if _, err := hRecv(r, ss); err != nil {
+				m := new(Msg)
+				err := ss.RecvMsg(m)
+				if returned {
+					// the handler has returned: the stream must not be used any more, and
+					// what a left-over receive yields is not part of the stream's contract
 					return
 				}
+				if err != nil {
+					r.HRecvErr = err
+					return
+				}
+				r.HRecv = append(r.HRecv, string(m.Value))
 			}
 		})
+		defer func() { returned = true }()
 		for i := 0; i < n; i++ {
 			if err := hSend(r, ss, Pad(fmt.Sprintf("%s.c%d", r.Tag, i))); err != nil {
 				return err
